@@ -63,7 +63,11 @@ CELER_FUNCTION float GenerateCanonical32<float>::operator()(Generator& rng)
                   "Generator must return 32-bit sample");
 
     constexpr float norm = 2.32830643654e-10f;  // 1 / 2**32
-    return norm * rng();
+    // Samples above 2^32 - 2^7 round up to 2^32 when converted to float:
+    // keep the result strictly below one
+    constexpr float max_result = 0.99999994f;  // 1 - 2**-24
+    float const result = norm * rng();
+    return result < 1.0f ? result : max_result;
 }
 
 //---------------------------------------------------------------------------//
